@@ -31,6 +31,7 @@ type X struct {
 	FailWrite    int // fail the k-th output write (1-based), 0 = never
 	FaultStep    int // step at which the injected fault fired (0 = none)
 	FaultText    string
+	CycleBegin   []int       // steps at which the container goroutine took a refresh request
 	TermFills    map[int]int // per bar: Fill calls that saw a terminal state
 	Queued       map[int]int // per predecessor: successors queued behind it so far
 	Viol         []string
@@ -258,4 +259,24 @@ func (x *X) Obs() string {
 // LibThread reports whether a thread role belongs to library code.
 func LibThread(role string) bool {
 	return strings.HasPrefix(role, "mpb:") || strings.HasPrefix(role, "decor:") || strings.HasPrefix(role, "cwriter:") || strings.HasPrefix(role, "ctx.") || strings.HasPrefix(role, "timer.")
+}
+
+// CycleStart returns a lower bound for the step at which the render cycle that
+// produced frame k began: the last refresh request taken before the frame was
+// written, but not earlier than the previous frame's write.
+func (x *X) CycleStart(frames []Frame, k int) int {
+	lo := 0
+	if k > 0 {
+		lo = frames[k-1].Step
+	}
+	best := -1
+	for _, s := range x.CycleBegin {
+		if s < frames[k].Step && s > best {
+			best = s
+		}
+	}
+	if best > lo {
+		return best
+	}
+	return lo
 }
